@@ -84,7 +84,7 @@ def allowed(inp, out):
         ch = inp[i]
         marks = []
         k = i + 1
-        while k < len(inp) and is_mark(inp[k]) and len(marks) < 4:
+        while k < len(inp) and is_mark(inp[k]) and len(marks) < 32:
             marks.append(inp[k])
             k += 1
         req = bool(marks and ch.isascii() and ch.isalpha() and ord(marks[0]) in STD)
